@@ -728,3 +728,30 @@ def check_jacobian(model, seed=0, sparse=False, backend="default", n_states=2):
             if fails:
                 return fails
     return fails
+
+
+def check_frontends(model, route, vectorize, seed=0, style=0):
+    """C15-B: the model defined through `route` has the spec's vector field.
+    route: 'yaml' (YAML templates), 'roundtrip' (Python -> to_yaml -> from_yaml), 'yaml-roundtrip' (YAML -> to_yaml -> from_yaml)."""
+    from pyrates import CircuitTemplate
+    try:
+        if route == "yaml":
+            tpl = CircuitTemplate.from_yaml(mdl.write_yaml(model, style=style))
+        elif route == "roundtrip":
+            t0 = mdl.build_templates(model, style=style)
+            t0.to_yaml("rt/dumped.yaml")
+            tpl = CircuitTemplate.from_yaml(f"rt/dumped/{t0.name}")
+        elif route == "yaml-roundtrip":
+            t0 = CircuitTemplate.from_yaml(mdl.write_yaml(model, style=style))
+            t0.to_yaml("rt2/dumped.yaml")
+            tpl = CircuitTemplate.from_yaml(f"rt2/dumped/{t0.name}")
+        else:
+            raise ValueError(route)
+        comp = compile_model(model, vectorize=vectorize, tpl=tpl)
+    except Exception as exn:
+        return [dict(clause=f"the model can be defined / written / re-loaded through route `{route}`", observed=f"{type(exn).__name__}: {exn}")]
+    rng = np.random.default_rng(seed)
+    fails = check_vector_field(model, comp, rng, n_states=2, n_param_draws=0, vectorized=vectorize)
+    for f in fails:
+        f["clause"] = f"[{route}] " + f["clause"]
+    return fails
